@@ -105,14 +105,19 @@ def chainOracleRaw (curves : List (Pt3 Float × Pt3 Float × Pt3 Float × Pt3 Fl
       let (s', c1', _, _, _) := arr[j]!
       if !(same3 s' e) then fails := fails ++ ["consecutive_curves_do_not_share_end_point"]
       let tin := Pt3.sub e c2; let tout := Pt3.sub c1' s'
-      let sc := (F!(1.0) + mag3 tin) * (F!(1.0) + mag3 tout)
       let len := lens.getD j F!(1.0)
-      -- both tangents are differences of stored points: each carries an absolute error of about one
-      -- ulp of the points' magnitude, which matters when handles are short and coordinates large
-      let canc := F!(1e-15) * (mag3 tin * (mag3 s' + mag3 c1') + mag3 tout * (mag3 e + mag3 c2))
-      let tol := F!(1e-9) * sc + canc
-      if mag3 tin > F!(1e-9) + F!(1e-12) * (mag3 e + mag3 c2) && len != F!(0.0) then
-        if !(mag3 (Pt3.cross tin tout) ≤ tol && (Pt3.dot tin tout) * len ≥ -tol * (F!(1.0) + len.abs)) then
+      -- the angle between the two tangents, relative to their lengths.  Both tangents are differences of
+      -- stored points and carry an absolute error of about one ulp of the points' magnitude each, which
+      -- turns into an angular error of that over the tangent's length; a handle so short that this
+      -- angular uncertainty reaches 0.1 rad does not define a direction in doubles and is not judged
+      let u := F!(2.3e-16)
+      let eIn := F!(8.0) * u * (mag3 e + mag3 c2) / mag3 tin
+      let eOut := F!(8.0) * u * (mag3 s' + mag3 c1') / mag3 tout
+      let tolAng := F!(1e-9) + eIn + eOut
+      if mag3 tin > F!(0.0) && mag3 tout > F!(0.0) && tolAng < F!(0.1) && len != F!(0.0) then
+        let sinA := mag3 (Pt3.cross tin tout) / (mag3 tin * mag3 tout)
+        let cosA := (Pt3.dot tin tout) / (mag3 tin * mag3 tout)
+        if !(sinA ≤ tolAng && (if len > F!(0.0) then cosA > F!(0.0) else cosA < F!(0.0))) then
           fails := fails ++ [s!"tangent_not_continuous_at_joint:{j}"]
   -- points: passes through every knot in order, each joint once, closed chain does not repeat its first point
   let total := curves.foldl (fun a c => a + c.2.2.2.2) 0
